@@ -241,6 +241,10 @@ def main(argv=None):
         record_violation(dict(check='obligation', obligation=o['name'], witness=o.get('witness'), kind='no-failing-input-found',
                               detail=f'{o["text"]}', solver=dict(result='sat', backend=o['backend'], model=o.get('model'),
                                                                loop_free_path=o['loopfree'])))
+      elif r['kind'] == 'fn' and r['status'] in ('unsupported', 'failed', 'error') and R.bounded_checks.get(prop):
+        # no stand-in is named for this function: the property's registered stand-ins (run below in any case) decide
+        proof_lost.append(dict(target=r['target'], status=r['status'], error=(r['error'] or '')[:500],
+                               failed=[o['name'] for o in failed][:5], bounded='(the stand-ins registered for the property)'))
       elif r['status'] == 'timeout':        # the solver hung and the job was killed: a lost proof, nothing is known against the code
         proof_lost.append(dict(target=r['target'], status=r['status'], error=(r['error'] or '')[:500], failed=[], bounded='(none)'))
       elif r['status'] in ('failed',) and r['kind'] == 'lemma':
